@@ -192,13 +192,7 @@ func (e *EvalBinaryNode) EvalString(scope *Scope, executionState ExecutionState)
 
 // EvalBool executes the expression based on eval bool
 func (e *EvalBinaryNode) EvalBool(scope *Scope, executionState ExecutionState) (bool, error) {
-	var result resultContainer
-	var err *ErrSide
-	if e.leftEvaluator.IsDynamic() || e.rightEvaluator.IsDynamic() {
-		result, err = e.evaluateDynamicNode(scope, executionState, e.leftEvaluator, e.rightEvaluator)
-	} else {
-		result, err = e.eval(scope, executionState)
-	}
+	result, err := e.eval(scope, executionState)
 	if err != nil {
 		return false, err.error
 	}
@@ -247,52 +241,28 @@ func (e *EvalBinaryNode) EvalInt(scope *Scope, executionState ExecutionState) (i
 }
 
 func (e *EvalBinaryNode) eval(scope *Scope, executionState ExecutionState) (resultContainer, *ErrSide) {
-	return e.evalRetry(scope, executionState, 0)
+	// A node with a dynamic operand specialises itself from the current types of its operands
+	// before every evaluation (the types can change from one scope to the next).  It must not run
+	// the function it cached for an earlier scope and repair the specialisation after a type
+	// guard failure: by then the left operand has been evaluated, so retrying evaluates stateful
+	// functions twice, and a guard failure of one operand says nothing about the other operand.
+	if e.leftEvaluator.IsDynamic() || e.rightEvaluator.IsDynamic() {
+		return e.evaluateDynamicNode(scope, executionState, e.leftEvaluator, e.rightEvaluator)
+	}
+
+	return e.evalSpecialized(scope, executionState)
 }
 
-func (e *EvalBinaryNode) evalRetry(scope *Scope, executionState ExecutionState, retries int) (resultContainer, *ErrSide) {
+// evalSpecialized evaluates the node with its current evaluation function.  A type guard failure of
+// an operand is an evaluation error of this scope (for example a unary NOT over a field that is
+// not a boolean); it never changes the specialisation, which would outlive the scope.
+func (e *EvalBinaryNode) evalSpecialized(scope *Scope, executionState ExecutionState) (resultContainer, *ErrSide) {
 	if e.evaluationFn == nil {
 		err := e.determineError(scope, executionState)
 		return boolFalseResultContainer, &ErrSide{error: err}
 	}
 
-	evaluationResult, err := e.evaluationFn(scope, executionState, e.leftEvaluator, e.rightEvaluator)
-
-	// This case can in dynamic nodes,
-	// for example: RefNode("value") > NumberNode("float64")
-	// in the first evaluation "value" is float64 so we will have float64 > float64 comparison fn
-	// after the first evaluation, let's assume that "value" is changed to int64 - we need to change
-	// the comparison fn
-	if err != nil {
-		if typeGuardErr, isTypeGuardError := err.error.(ErrTypeGuardFailed); isTypeGuardError {
-			// Each side can change its type at most once for a given scope, if the type guard
-			// still fails after both sides have been fixed (for example a unary minus applied
-			// to a string) trying again cannot succeed.
-			if retries >= 2 {
-				return boolFalseResultContainer, err
-			}
-
-			// Fix the type info, thanks to the type guard info
-			if err.IsLeft {
-				e.leftType = typeGuardErr.ActualType
-			}
-
-			if err.IsRight {
-				e.rightType = typeGuardErr.ActualType
-			}
-
-			// redefine the evaluation fn
-			e.evaluationFn = e.lookupEvaluationFn()
-			if e.evaluationFn == nil {
-				return boolFalseResultContainer, err
-			}
-
-			// try again
-			return e.evalRetry(scope, executionState, retries+1)
-		}
-	}
-
-	return evaluationResult, err
+	return e.evaluationFn(scope, executionState, e.leftEvaluator, e.rightEvaluator)
 }
 
 // evaluateDynamicNode fetches the value of the right and left node at evaluation time (aka "runtime")
@@ -321,7 +291,7 @@ func (e *EvalBinaryNode) evaluateDynamicNode(scope *Scope, executionState Execut
 
 	e.evaluationFn = e.lookupEvaluationFn()
 
-	return e.eval(scope, executionState)
+	return e.evalSpecialized(scope, executionState)
 }
 
 // Return an understandable error which is most specific to the issue.
